@@ -137,21 +137,69 @@ let show_outcome (o : outcome) : string =
   | Sig _ -> "E:loop|T:" ^ show_trace o.o_trace
   | Fuel -> "FUEL"
 
+(* listing of the Gallina generator model (coq/Model/GenF0.v) in the format of the real InstrString() *)
+let quote_str (bs : z list) : string =
+  "\"" ^ String.concat "" (List.map (fun b -> String.make 1 (Char.chr (int_of_z b))) bs) ^ "\""
+let show_lit (e : expr) : string =
+  match e with
+  | EInt z -> string_of_z z
+  | EBool true -> "true" | EBool false -> "false"
+  | ENil -> "nil"
+  | EStr s -> quote_str s
+  | _ -> "?"
+let show_instr (scope_names : string list ref) (i : instr) : string =
+  match i with
+  | IPush e -> "push " ^ show_lit e
+  | IEnvToStack x -> "envToStack " ^ name_of x
+  | IPop -> "pop"
+  | IDup -> "dup"
+  | IBranch (true, off) -> "br " ^ string_of_int (int_of_nat off)
+  | IBranch (false, off) -> "brn " ^ string_of_int (int_of_nat off)
+  | IJump off -> "jump " ^ string_of_int (int_of_nat off)
+  | IPutEnv x -> "popStackPutEnv " ^ name_of x
+  | IUpdate x -> "putup " ^ name_of x
+  | IAddScope -> (match !scope_names with n :: r -> scope_names := r; "add scope " ^ n | [] -> "add scope ?")
+  | IRemoveScope -> "rem runtime scope"
+  | ICallExpr (_, args) -> "callExpr " ^ string_of_int (List.length args)
+
+(* the names the real AddScopeInstr carries, in the order the generator emits them *)
+let rec scope_names_of (e : expr) : string list =
+  match e with
+  | EBegin es | EAnd es | EOr es -> List.concat_map scope_names_of es
+  | ECond (arms, d) -> List.concat_map (fun (c, b) -> scope_names_of c @ scope_names_of b) arms @ scope_names_of d
+  | EDef (_, e1) | ESet (_, e1) -> scope_names_of e1
+  | ELet (seq, bs, body) ->
+    (if seq then "runtime letseq" else "runtime let") :: (List.concat_map (fun (_, e1) -> scope_names_of e1) bs @ List.concat_map scope_names_of body)
+  | EScope es -> "newScope" :: List.concat_map scope_names_of es
+  | _ -> []
+
+let listing (forms : expr list) : string =
+  let e = EBegin forms in
+  if not (f0 e) then "NOTF0"
+  else begin
+    let names = ref (scope_names_of e) in
+    String.concat ";" (List.map (show_instr names) (gen e))
+  end
+
 let () =
   iter_lines (fun line ->
     match split_tab line with
     | id :: body :: _ ->
       (try
-        let fuel = ref 300 and failat = ref 0 in
+        let fuel = ref 300 and failat = ref 0 and bytecode = ref false in
         let toks = tokenize body in
         let rec opts = function
           | t :: r when String.length t > 5 && String.sub t 0 5 = "fuel=" -> fuel := int_of_string (String.sub t 5 (String.length t - 5)); opts r
           | t :: r when String.length t > 7 && String.sub t 0 7 = "failat=" -> failat := int_of_string (String.sub t 7 (String.length t - 7)); opts r
+          | "bytecode=1" :: r -> bytecode := true; opts r
           | t :: r when t <> "(" && t <> ")" && String.contains t '=' && t <> "==" && t <> "!=" && t <> "<=" && t <> ">=" -> opts r
           | r -> r in
         let toks = opts toks in
         let forms = List.map expr_of (parse_all toks) in
-        let o = eval_program_cfg (nat_of_int !fuel) (nat_of_int !failat) forms in
-        Printf.printf "%s\t%s\t-\n%!" id (show_outcome o)
+        if !bytecode then Printf.printf "%s\t%s\t-\n%!" id (listing forms)
+        else begin
+          let o = eval_program_cfg (nat_of_int !fuel) (nat_of_int !failat) forms in
+          Printf.printf "%s\t%s\t-\n%!" id (show_outcome o)
+        end
       with Failure m -> Printf.printf "%s\tBADINPUT:%s\t-\n%!" id m)
     | _ -> failwith ("bad line: " ^ line))
